@@ -180,6 +180,16 @@ def o174(ctx):
             node = last_store(it, f, c) or fn
             ctx.finding(q, node, f"wedge-list column {c!r} must hold the like-named input ({ {'tilt_angle': 'tilts of tlt_file', 'defocus': 'defocus_mean of ctf_file', 'exposure': 'dose of dose_file', 'z_shift': 'z-shift'}.get(c, c) })",
                         node, m, extracted=tm.show(t)[:120] if t is not None else None)
+    # row pairing: image i keeps its tilt, defocus and dose -- none of the per-image columns may be re-ordered or thinned on its own
+    REORDER = ("numpy.sort", "numpy.unique", "numpy.argsort", "builtins.sorted", "numpy.flip", ".sort_values", "numpy.lexsort", "builtins.reversed")
+    for c in ("tilt_angle", "defocus", "exposure"):
+        t = f.cols.get(c)
+        ctx.count(1)
+        hit = [n for n in tm.walk(t) if n.op == "call" and str(n.args[0]) in REORDER] if t is not None else []
+        if hit:
+            node = last_store(it, f, c) or fn
+            ctx.finding(q, node, f"wedge-list column {c!r} is re-ordered / thinned on its own ({hit[0].args[0]}): row i must pair the i-th tilt "
+                        "with the i-th defocus and dose of the inputs (array inputs come in acquisition order)", node, m, extracted=tm.show(t)[:120])
     for k, c in enumerate(("tomo_x", "tomo_y", "tomo_z")):
         t = f.cols.get(c)
         ctx.count(1)
@@ -348,6 +358,19 @@ def o175(ctx):
         if opener not in starts or ("]" not in strips) or not f_.rstrip("\n").endswith("]"):
             ctx.finding(q, "section line format", f"section lines are written as {f_!r}; the reader recognises sections by a leading "
                         f"{sorted(starts)} and strips {sorted(strips)}", fn, m)
+    # reader: the per-image table holds every key of every section (union) -- a table built from the parsed records may not be
+    # restricted to a column list (the list the reader prepares comes from the first section only)
+    ctors = [n for n in ast.walk(fr_) if isinstance(n, ast.Call) and ctx.prog.resolve(mr, n.func) == "pandas.DataFrame"]
+    ctx.count(len(ctors), {"table constructions in _parse_images": [ast.unparse(c_)[:60] for c_ in ctors]})
+    if not ctors:
+        raise Unsupported("table construction in Mdoc._parse_images not found", fr_)
+    for c_ in ctors:
+        data = c_.args[0] if c_.args else kwarg(c_, "data")
+        has_data = data is not None and not (isinstance(data, ast.Constant) and data.value is None)
+        if has_data and kwarg(c_, "columns") is not None:
+            ctx.finding("mdoc.Mdoc._parse_images", c_, "the table of parsed sections is restricted to a prepared column list: keys that first appear in a "
+                        "later section (a field missing on the first image) are silently dropped from the table and from every file written "
+                        "afterwards", c_, mr)
     # excluded columns
     cols_if = [n for n in ast.walk(fn) if isinstance(n, ast.If) and "column" in ast.unparse(n.test) and "Removed" in ast.unparse(n.test)]
     ctx.count(1)
